@@ -51,6 +51,7 @@ def _walk_no_nested_defs(nodes):
             stack.append(c)
 
 
+PROTECTED: Set[Tuple[str, str]] = set()  # (module, function name): renamed-back functions, never treated as extracted helpers
 REMOVED: Dict[str, List[ast.AST]] = {}  # helpers that were inlined everywhere and taken out of the tree (kept for rules that interpret them)
 
 
@@ -210,7 +211,7 @@ class ModuleInliner:
                         method_names[m.name] = method_names.get(m.name, 0) + 1
         for st in self.tree.body:
             if isinstance(st, FuncNode):
-                if f"{self.modname}:{st.name}" not in self.known:
+                if f"{self.modname}:{st.name}" not in self.known and (self.modname, st.name) not in PROTECTED:
                     h = _Helper(st, "function", None)
                     if h.eligible():
                         self.helpers[(None, st.name)] = h
@@ -744,6 +745,13 @@ def undo_renames(trees: Dict[str, ast.Module], known_functions: Set[str], signat
                                 scored.append((j, u))
                     scored.sort(key=lambda t: -t[0])
                     cands = [scored[0][1]] if scored and (len(scored) == 1 or scored[0][0] - scored[1][0] >= 0.2) else []
+                if not cands and cls is not None:
+                    # a method that never used `self` turned into a module-level function: same parameters without the receiver
+                    mod_unknown = [f for f in tree.body if isinstance(f, FuncNode) and f"{mod}:{f.name}" not in known_functions and f.name not in renames]
+                    cands = [u for u in mod_unknown if [a.arg for a in u.args.posonlyargs + u.args.args + u.args.kwonlyargs] == sig["params"][1:]]
+                    if len(cands) == 1:
+                        log.append(f"{mod}: method `{cls}.{k}` became the module-level function `{cands[0].name}`")
+                        PROTECTED.add((mod, k))
                 if len(cands) == 1 and cands[0].name not in renames:
                     renames[cands[0].name] = k
                     unknown = [u for u in unknown if u is not cands[0]]
@@ -775,6 +783,7 @@ def inline_package(trees: Dict[str, ast.Module], packages: Dict[str, bool], know
     module are followed through `from X import name [as alias]`).  `packages[mod]` says whether mod is a package (__init__)."""
     log: List[str] = []
     REMOVED.clear()
+    PROTECTED.clear()
     if signatures:
         log.extend(undo_renames(trees, known_functions, signatures))
     inl: Dict[str, ModuleInliner] = {}
